@@ -4,7 +4,6 @@ import (
 	"fmt"
 	"go/token"
 	"go/types"
-	"strings"
 
 	"golang.org/x/tools/go/ssa"
 )
@@ -1182,23 +1181,17 @@ func (st *State) call(f *Frame, x *ssa.Call) {
 			fn, bind = cl.Fn, cl.Bind
 		}
 	}
-	name := fn.String()
-	if in, ok := intrinsics[name]; ok {
-		in(st, f, x, args)
+	meta := st.run.P.fnMeta(fn)
+	if meta.intr != nil {
+		meta.intr(st, f, x, args)
 		return
-	}
-	if i := strings.LastIndex(name, "."); i >= 0 && strings.HasPrefix(name[i+1:], "v") && strings.HasPrefix(name, ModPath) {
-		if in, ok := harnessIntrinsics[name[i+1:]]; ok {
-			in(st, f, x, args)
-			return
-		}
 	}
 	if len(fn.Blocks) == 0 {
 		if fn.Name() == "init" {
 			st.deliver(f, nil)
 			return
 		}
-		st.fail("call of external function without intrinsic: " + name)
+		st.fail("call of external function without intrinsic: " + fn.String())
 		abort()
 	}
 	if len(bind) == 0 && !st.run.Opts.NoMerge && st.run.P.pureFn(fn) {
